@@ -1,4 +1,4 @@
 ; ---- C20: vocabulary for pkg/test (w-c19) -----------------------------------------------------------
-(declare-fun gcount (Val) Int)          ; meaning of (rel.GenericSet).Count on the boxed set
-(declare-fun ghas (Val Val) Bool)       ; meaning of (rel.GenericSet).Has
+; gcount / ghas (meaning of (rel.GenericSet).Count / Has on the boxed set): declared in 34_gset_decls.smt2, defined by
+; axioms in 35_sets.smt2 (w-c01) in terms of the frozen set
 (declare-fun emptyTupleVal () Val)      ; the value of the package variable rel.EmptyTuple
